@@ -772,7 +772,7 @@ Proof.
   destruct s as [ | | | hi lo | i | k]; cbn [vstep].
   1-3: intros H; apply cast_root in H; tauto.
   - destruct (vkind_ v); [|discriminate]. destruct (lo <=? hi)%Z; [|discriminate].
-    destruct (Z.eqb _ _); [|discriminate]. intros H; injection H as <-; auto.
+    destruct (_ && _)%bool; [|discriminate]. intros H; injection H as <-; auto.
   - destruct (vkind_ v); [|discriminate]. destruct (_ && _)%bool; [|discriminate].
     destruct (nth_error _ _); [|discriminate]. intros H; injection H as <-; auto.
   - destruct (vkind_ v); [|discriminate]. destruct (nth_error _ _); [|discriminate]. intros H; injection H as <-; auto.
@@ -825,8 +825,8 @@ Proof.
   destruct s as [ | | | hi lo | i | k]; cbn [vstep].
   1-3: intros H; apply cast_root in H; destruct H as (_ & _ & ->); apply sublist_refl.
   - destruct (vkind_ v); [|discriminate]. destruct (lo <=? hi)%Z; [|discriminate].
-    destruct (Z.eqb _ _); [|discriminate]. intros H; injection H as <-; cbn.
-    unfold pyslice. eapply sublist_trans; [apply sublist_firstn | apply sublist_skipn].
+    destruct (_ && _)%bool; [|discriminate]. intros H; injection H as <-; cbn.
+    unfold subrange. eapply sublist_trans; [apply sublist_firstn | apply sublist_skipn].
   - destruct (vkind_ v); [|discriminate]. destruct (_ && _)%bool; [|discriminate].
     destruct (nth_error _ _) eqn:E; [|discriminate]. intros H; injection H as <-; cbn. eapply sublist_single; exact E.
   - destruct (vkind_ v); [|discriminate]. destruct (nth_error _ _) eqn:E; [|discriminate].
@@ -901,12 +901,112 @@ Proof.
   - destruct (derive_root _ _ _ D1) as [A B]. destruct (derive_root _ _ _ D2) as [C D]. cbn in *. auto.
 Qed.
 
-(** the compile-time address (_ref_spec) of an iterated element of a nested slice is NOT its storage cell *)
-Definition iter_nested_example := derive (root_view 0 (QSig, None) FBV 8) [SSlice 7 2; SSlice 3 1; SIter 0].
-Lemma iter_refspec_refuted :
-  exists ch v, derive (root_view 0 (QSig, None) FBV 8) ch = Some v /\ vcells v = [3] /\ resolve 8 (vspec v) = (1, 1)%Z.
-Proof. exists [SSlice 7 2; SSlice 3 1; SIter 0]. eexists. split; [vm_compute; reflexivity | split; reflexivity]. Qed.
-(** ... while indexing the same element resolves correctly *)
-Lemma index_refspec_example :
-  exists v, derive (root_view 0 (QSig, None) FBV 8) [SSlice 7 2; SSlice 3 1; SIndex 0] = Some v /\ vcells v = [3] /\ resolve 8 (vspec v) = (3, 3)%Z.
-Proof. eexists. split; [vm_compute; reflexivity | split; reflexivity]. Qed.
+(** * the compile-time address (_ref_spec) of every view denotes exactly its storage cells *)
+Lemma skipn_seq k : forall a n, skipn k (seq a n) = seq (a + k) (n - k).
+Proof.
+  induction k as [|k IH]; intros a n.
+  - rewrite Nat.add_0_r, Nat.sub_0_r. reflexivity.
+  - destruct n as [|n]; cbn [seq skipn]; [reflexivity|]. rewrite IH. f_equal. lia.
+Qed.
+Lemma firstn_seq k : forall a n, firstn k (seq a n) = seq a (Nat.min k n).
+Proof.
+  induction k as [|k IH]; intros a n; [reflexivity|].
+  destruct n as [|n]; cbn [seq firstn Nat.min]; [reflexivity|]. rewrite IH. reflexivity.
+Qed.
+Lemma nth_error_seq k : forall a n, k < n -> nth_error (seq a n) k = Some (a + k).
+Proof.
+  induction k as [|k IH]; intros a n H; destruct n as [|n]; try lia; cbn.
+  - f_equal; lia.
+  - rewrite IH by lia. f_equal; lia.
+Qed.
+Lemma nth_error_seq_inv k a n c : nth_error (seq a n) k = Some c -> k < n /\ c = a + k.
+Proof.
+  intros H. assert (L : k < n) by (rewrite <- (seq_length n a); apply nth_error_Some; congruence).
+  rewrite nth_error_seq in H by exact L. injection H as <-. auto.
+Qed.
+Lemma zsum_app l x : zsum (l ++ [x]) = (zsum l + x)%Z.
+Proof. induction l as [|y r IH]; cbn; [lia|]. unfold zsum in IH. cbn in IH. rewrite IH. lia. Qed.
+
+(** cells are a contiguous ascending range whose start and length are what the ref-spec says *)
+Definition vinv (w : nat) (v : view) : Prop :=
+  exists a n, vcells v = seq a n /\
+  match vspec v with
+  | RNone => a = 0 /\ n = w
+  | RSlice hi lo base => Z.of_nat a = (lo + zsum base)%Z /\ Z.of_nat n = (hi - lo + 1)%Z
+  | ROffset o base => Z.of_nat a = (o + zsum base)%Z /\ n = 1 /\ vkind_ v = KBit
+  end.
+
+Lemma vinv_base w v a n f :
+  match vspec v with
+  | RNone => a = 0 /\ n = w
+  | RSlice hi lo base => Z.of_nat a = (lo + zsum base)%Z /\ Z.of_nat n = (hi - lo + 1)%Z
+  | ROffset o base => Z.of_nat a = (o + zsum base)%Z /\ n = 1 /\ vkind_ v = KBit
+  end -> vkind_ v = KVec f -> Z.of_nat a = zsum (next_base (vspec v)).
+Proof.
+  intros H K. destruct (vspec v) as [|hi lo base|o base]; cbn [next_base].
+  - destruct H as [-> _]. reflexivity.
+  - rewrite zsum_app. lia.
+  - destruct H as (_ & _ & H). congruence.
+Qed.
+
+Lemma vstep_vinv w v s v' : vinv w v -> vstep v s = Some v' -> vinv w v'.
+Proof.
+  intros I H. pose proof I as (a & n & E & S).
+  destruct s as [ | | | hi lo | i | k]; cbn [vstep] in H.
+  1-3: unfold cast in H; destruct (vkind_ v) as [g|] eqn:K;
+    [ destruct (fam_eqb _ g); injection H as <-; [exact I|];
+      exists a, n; cbn; split; [exact E|]; destruct (vspec v); [exact S | exact S | destruct S as (_ & _ & S); congruence]
+    | try discriminate; try (injection H as <-; exact I) ].
+  - destruct (vkind_ v) as [g|] eqn:K; [|discriminate].
+    destruct (lo <=? hi)%Z eqn:L1; [|discriminate].
+    destruct ((0 <=? lo) && (hi <? Z.of_nat (length (vcells v))))%Z eqn:L2; [|discriminate].
+    injection H as <-. apply Z.leb_le in L1. apply andb_true_iff in L2. destruct L2 as [L2 L3].
+    apply Z.leb_le in L2. apply Z.ltb_lt in L3. rewrite E, seq_length in L3.
+    rewrite <- K in S; pose proof (vinv_base w v a n g S K) as B.
+    exists (a + Z.to_nat lo), (Z.to_nat (hi - lo + 1)). cbn. split.
+    + unfold subrange. rewrite E, skipn_seq, firstn_seq. f_equal. lia.
+    + lia.
+  - destruct (vkind_ v) as [g|] eqn:K; [|discriminate].
+    destruct ((0 <=? i) && (i <? Z.of_nat (length (vcells v))))%Z eqn:L2; [|discriminate].
+    destruct (nth_error (vcells v) (Z.to_nat i)) as [c|] eqn:N; [|discriminate].
+    injection H as <-. apply andb_true_iff in L2. destruct L2 as [L2 L3]. apply Z.leb_le in L2.
+    rewrite <- K in S; pose proof (vinv_base w v a n g S K) as B.
+    rewrite E in N. apply nth_error_seq_inv in N. destruct N as [N1 ->].
+    exists (a + Z.to_nat i), 1. cbn. split; [reflexivity | split; [lia | auto]].
+  - destruct (vkind_ v) as [g|] eqn:K; [|discriminate].
+    destruct (nth_error (vcells v) k) as [c|] eqn:N; [|discriminate].
+    injection H as <-.
+    rewrite <- K in S; pose proof (vinv_base w v a n g S K) as B.
+    rewrite E in N. apply nth_error_seq_inv in N. destruct N as [N1 ->].
+    exists (a + k), 1. cbn. split; [reflexivity | split; [lia | auto]].
+Qed.
+
+Lemma derive_vinv w ch : forall v v', vinv w v -> derive v ch = Some v' -> vinv w v'.
+Proof.
+  induction ch as [|s r IH]; intros v v' I H; cbn in H.
+  - injection H as <-; exact I.
+  - destruct (vstep v s) as [v1|] eqn:E; [|discriminate]. eapply IH; [eapply vstep_vinv; eassumption | exact H].
+Qed.
+
+(** for EVERY chain of casts, slices, indices and iteration: the recorded _ref_spec denotes exactly the storage cells *)
+Theorem refspec_cells id q f w ch v :
+  derive (root_view id q f w) ch = Some v ->
+  (0 <= fst (resolve w (vspec v)))%Z /\
+  vcells v = seq (Z.to_nat (fst (resolve w (vspec v))))
+                 (Z.to_nat (snd (resolve w (vspec v)) - fst (resolve w (vspec v)) + 1)).
+Proof.
+  intros D.
+  assert (I0 : vinv w (root_view id q f w)) by (exists 0, w; cbn; auto).
+  destruct (derive_vinv w ch _ _ I0 D) as (a & n & E & S). rewrite E.
+  destruct (vspec v) as [|hi lo base|o base]; cbn [resolve fst snd].
+  - destruct S as [-> ->]. split; [lia | f_equal; lia].
+  - destruct S as [S1 S2]. split; [lia | f_equal; lia].
+  - destruct S as (S1 & -> & _). split; [lia | f_equal; lia].
+Qed.
+
+(** the element reached by iteration and the one reached by indexing have the same address and the same cell *)
+Example iter_equals_index :
+  exists v v', derive (root_view 0 (QSig, None) FBV 8) [SSlice 7 2; SSlice 3 1; SIter 0] = Some v /\
+               derive (root_view 0 (QSig, None) FBV 8) [SSlice 7 2; SSlice 3 1; SIndex 0] = Some v' /\
+               vcells v = [3] /\ vcells v' = [3] /\ resolve 8 (vspec v) = (3, 3)%Z /\ resolve 8 (vspec v') = (3, 3)%Z.
+Proof. eexists; eexists. repeat split; vm_compute; reflexivity. Qed.
